@@ -182,17 +182,21 @@ func vC20xDoubleHashB(b []byte) []byte {
 // RebroadcastInterval (keep-alive check), in seconds.
 var c20xSecs = []int64{14 * 24 * 3600, 24 * 3600}
 
-// vC20xSub replaces (time.Time).Sub in the symbolic run: exact for the
-// whole-second instants the engine's time.Now model and time.Unix(sec, 0)
-// produce (the real Sub goes through a 64-bit multiply/divide by 1e9 that no
-// solver back end finishes, see harness/C20/NOTES.md "Staleness: time"). The
+// vC20xSub replaces (time.Time).Sub in the symbolic run. The real Sub goes
+// through a 64-bit multiply/divide by 1e9 that no solver back end finishes
+// (harness/C20/NOTES.md "Staleness: time"), and a constant 64-bit multiply
+// alone already forces the engine off its incremental solver. The model is a
+// cut: the result is a fresh value r about which only the facts the gossiper
+// uses are known - how r compares with the two constants of c20xSecs is how
+// the whole-second difference d compares with them. For whole-second instants
+// (time.Unix(sec, 0), the engine's time.Now) the real result d*1e9 satisfies
+// exactly these facts (x*1e9 is strictly monotone and does not wrap for
+// |x| < 2^33: VerifC20xMulLemma), so every real behaviour is covered. The
 // native replay runs the real Sub.
 func vC20xSub(t, u time.Time) time.Duration {
 	d := t.Unix() - u.Unix()
 	vLemma(d > -(1<<33) && d < 1<<33, "t - u fits 34 bits")
-	r := time.Duration(d) * time.Second
-	// x -> x*1e9 is strictly monotone on |x| < 2^33; proved for a plain
-	// variable by VerifC20xMulLemma, used here for the two constants.
+	r := time.Duration(vI64("sub.ns"))
 	for _, e := range c20xSecs {
 		vAssume((r > time.Duration(e)*time.Second) == (d > e))
 		vAssume((r < time.Duration(e)*time.Second) == (d < e))
@@ -600,17 +604,22 @@ func VerifC20xChanUpdate() {
 			if !vBool(name + ".present") {
 				continue
 			}
+			// The stored policy of a direction: any last-update time; the
+			// other fields are the update's, except the base fee (xor any
+			// value) and the disabled bit (any), so that the update is or
+			// is not a keep-alive of the stored policy.
 			last := vU32(name + ".last")
 			stored[k] = &models.ChannelEdgePolicy{
 				Version: lnwire.GossipVersion1, ChannelID: chanID,
 				LastUpdate:                time.Unix(int64(last), 0),
-				MessageFlags:              lnwire.ChanUpdateMsgFlags(vU8(name + ".mflags")),
-				ChannelFlags:              lnwire.ChanUpdateChanFlags(vU8(name+".cflags")&^1 | uint8(k)),
-				TimeLockDelta:             vU16(name + ".tld"),
-				MinHTLC:                   lnwire.MilliSatoshi(vU64(name + ".min")),
-				MaxHTLC:                   lnwire.MilliSatoshi(vU64(name + ".max")),
-				FeeBaseMSat:               lnwire.MilliSatoshi(vU32(name + ".base")),
-				FeeProportionalMillionths: lnwire.MilliSatoshi(vU32(name + ".rate")),
+				MessageFlags:              lnwire.ChanUpdateMsgFlags(u.mflags),
+				ChannelFlags:              lnwire.ChanUpdateChanFlags(u.cflags&^3 | vU8(name+".disabled")&2 | uint8(k)),
+				TimeLockDelta:             u.tld,
+				MinHTLC:                   lnwire.MilliSatoshi(u.min),
+				MaxHTLC:                   lnwire.MilliSatoshi(u.max),
+				FeeBaseMSat:               lnwire.MilliSatoshi(u.base ^ vU32(name+".dbase")),
+				FeeProportionalMillionths: lnwire.MilliSatoshi(u.rate),
+				ExtraOpaqueData:           u.extra,
 			}
 		}
 		g.e1, g.e2 = stored[0], stored[1]
